@@ -16,6 +16,7 @@ import (
 	"os"
 	"path/filepath"
 	"strconv"
+	"strings"
 
 	"verif/internal/pdfw"
 
@@ -44,6 +45,7 @@ type xOpt struct {
 }
 
 type xCase struct {
+	idxNum int    // object number of the index array (set by xBuild)
 	Revs   []xRev `json:"revs"`
 	Opt    xOpt   `json:"opt"`
 	Newest []int  `json:"newest"`
@@ -111,6 +113,11 @@ func xBuild(c *xCase) ([]byte, int, error) {
 	if c.Opt.Big {
 		bl = 5000
 	}
+	// an index object: an array of references to every object of the history, reachable from the catalog. Resolving it
+	// deeply walks the whole history; looking it up must keep returning the references themselves
+	idx := next
+	next++
+	c.idxNum = idx
 	f := &pdfw.File{EOL: c.Opt.Eol, NoFreeHead: c.Opt.NoHead}
 	for ri, rv := range c.Revs {
 		r := pdfw.Revision{XRef: rv.Kind, Root: pdfw.Ref{Num: cat}, Split: c.Opt.Split, FlateXRef: c.Opt.Flate}
@@ -129,7 +136,14 @@ func xBuild(c *xCase) ([]byte, int, error) {
 		}
 		if ri == 0 {
 			items = append(items,
-				pdfw.Item{Num: cat, Val: pdfw.Dict{{"Type", pdfw.Name("Catalog")}, {"Pages", pdfw.Ref{Num: pgs}}}},
+				pdfw.Item{Num: cat, Val: pdfw.Dict{{"Type", pdfw.Name("Catalog")}, {"Pages", pdfw.Ref{Num: pgs}}, {"VerifIndex", pdfw.Ref{Num: idx}}}},
+				pdfw.Item{Num: idx, Val: func() pdfw.Arr {
+					a := pdfw.Arr{}
+					for k := 1; k <= n+1; k++ {
+						a = append(a, pdfw.Ref{Num: xNum(c, k)})
+					}
+					return append(a, pdfw.Int(42))
+				}()},
 				pdfw.Item{Num: pgs, Val: pdfw.Dict{{"Type", pdfw.Name("Pages")}, {"Kids", pdfw.Arr{}}, {"Count", pdfw.Int(0)}}})
 		}
 		if !c.Opt.Split {
@@ -218,6 +232,14 @@ func c04Case(i int, raw []byte) Result {
 	for k := 1; k <= n+1; k++ {
 		alpha = append(alpha, k)
 	}
+	// n+2: resolve the index array deeply (every object of the history is visited through the reader); n+3: look the
+	// index array up by number. Both only as the first step of a two-step sequence, and n+3 as a second step.
+	deepOp, idxOp := n+2, n+3
+	wantIdx := "["
+	for k := 1; k <= n+1; k++ {
+		wantIdx += fmt.Sprintf("%d 0 R ", xNum(&c, k))
+	}
+	wantIdx += "42]"
 	maxLen := 2
 	if tier() == "thorough" {
 		maxLen = 3
@@ -236,6 +258,12 @@ func c04Case(i int, raw []byte) Result {
 		}
 	}
 	gen(nil)
+	for _, first := range []int{deepOp, idxOp} {
+		for _, a := range append(append([]int{}, alpha[1:]...), idxOp) {
+			seqs = append(seqs, []int{first, a})
+		}
+		seqs = append(seqs, []int{first, 0, idxOp})
+	}
 	revsJSON := json.RawMessage(mustJSON(c.Revs))
 	feature := func(k int) string {
 		// the operation of the newest revision mentioning object k
@@ -275,6 +303,28 @@ func c04Case(i int, raw []byte) Result {
 				}
 				continue
 			}
+			if k == deepOp || k == idxOp {
+				if k == deepOp {
+					func() {
+						defer func() { recover() }() // a deep resolution may refuse freed objects; only its after-effects are judged here
+						rd.ResolveDeep(core.IndirectRef{Number: c.idxNum, Generation: 0})
+					}()
+					continue
+				}
+				o, gerr := rd.GetObject(c.idxNum)
+				got := "error"
+				if gerr == nil {
+					got = xShowArray(o)
+				}
+				if got != wantIdx {
+					rd.Close()
+					x := fail("lookup", "C04:lookup:index-array", fmt.Sprintf("lookup of the index array (object %d) in sequence %v returned %s; the file defines %s (history %s, options %s; %d = deep resolution of that array, %d = its lookup)",
+						c.idxNum, seq, got, wantIdx, mustJSON(c.Revs), mustJSON(c.Opt), deepOp, idxOp), map[string]interface{}{"case": json.RawMessage(raw), "observed": got, "sequence": seq})
+					x.Nontrivial, x.Key, x.Evals = res.Nontrivial, res.Key, res.Evals
+					return x
+				}
+				continue
+			}
 			o, gerr := rd.GetObject(xNum(&c, k))
 			got := xProject(o, gerr, bl)
 			want := bl
@@ -300,6 +350,26 @@ func c04Case(i int, raw []byte) Result {
 		res.Events = append(res.Events, ev...)
 	}
 	return res
+}
+
+// xShowArray prints an array of references and integers as the file spells it
+func xShowArray(o core.Object) string {
+	a, ok := o.(core.Array)
+	if !ok {
+		return fmt.Sprintf("%T", o)
+	}
+	parts := make([]string, len(a))
+	for i, e := range a {
+		switch v := e.(type) {
+		case core.IndirectRef:
+			parts[i] = fmt.Sprintf("%d %d R", v.Number, v.Generation)
+		case core.Int:
+			parts[i] = fmt.Sprint(int64(v))
+		default:
+			parts[i] = fmt.Sprintf("<%T>", e)
+		}
+	}
+	return "[" + strings.Join(parts, " ") + "]"
 }
 
 func c04(mode, in, out string) error {
